@@ -1,6 +1,7 @@
 package zv
 
 import (
+	"fmt"
 	"go/token"
 	"go/types"
 	"sort"
@@ -57,6 +58,10 @@ func checkC11(c *Ctx) {
 		return
 	}
 	recvN, entP, ceP := fn.Params[0].Name(), fn.Params[1], fn.Params[2]
+	// isFld: the rendering names the sampler's setting `f` - a field of the receiver or of a struct it holds by value
+	isFld := func(d, f string) bool {
+		return strings.HasPrefix(d, recvN+".") && strings.HasSuffix(d, "."+f) && !strings.ContainsAny(d, "()[")
+	}
 	entN := entP.Name()
 	traces := func(st *ConcState, v ssa.Value, pred func(ssa.Value) bool) bool {
 		v = Strip(v)
@@ -114,7 +119,18 @@ func checkC11(c *Ctx) {
 						break
 					}
 					nGet++
-					row, _ := Strip(x.X).(*ssa.IndexAddr)
+					rv := Strip(x.X)
+					for k := 0; k < 12; k++ {
+						if _, isIA := rv.(*ssa.IndexAddr); isIA {
+							break
+						}
+						nx := st.Step(rv)
+						if nx == nil {
+							break
+						}
+						rv = Strip(nx)
+					}
+					row, _ := rv.(*ssa.IndexAddr)
 					if row == nil {
 						return "get(row " + st.Desc(x.X) + ")"
 					}
@@ -172,7 +188,7 @@ func checkC11(c *Ctx) {
 						if k, isConst := ConstInt(x.Y); isConst && k != 0 {
 							break // division by a non-zero constant (the bucket index)
 						}
-						if st.Desc(x.Y) == recvN+".thereafter" {
+						if isFld(st.Desc(x.Y), "thereafter") {
 							return "mod"
 						}
 						return "mod(" + st.Desc(x.Y) + ")"
@@ -218,12 +234,11 @@ func checkC11(c *Ctx) {
 					return "cond(" + st.Desc(cond) + ")"
 				}
 				isN := func(v ssa.Value) bool { return traces(st, v, isCallTo(incF)) }
-				F, T := recvN+".first", recvN+".thereafter"
 				x, y, op := bo.X, bo.Y, bo.Op
-				if isN(y) && st.Desc(x) == F {
+				if isN(y) && isFld(st.Desc(x), "first") {
 					x, y, op = y, x, swapOp(op)
 				}
-				if isN(x) && st.Desc(y) == F {
+				if isN(x) && isFld(st.Desc(y), "first") {
 					switch op {
 					case token.GTR:
 						return tf("beyond-first", pol)
@@ -231,10 +246,10 @@ func checkC11(c *Ctx) {
 						return tf("beyond-first", !pol)
 					}
 				}
-				if st.Desc(y) == T && st.Desc(x) == "0" {
+				if isFld(st.Desc(y), "thereafter") && st.Desc(x) == "0" {
 					x, y, op = y, x, swapOp(op)
 				}
-				if st.Desc(x) == T && st.Desc(y) == "0" {
+				if isFld(st.Desc(x), "thereafter") && st.Desc(y) == "0" {
 					switch op {
 					case token.EQL, token.LEQ:
 						return tf("thereafter-zero", pol)
@@ -242,8 +257,8 @@ func checkC11(c *Ctx) {
 						return tf("thereafter-zero", !pol)
 					}
 				}
-				if rem, ok := Strip(x).(*ssa.BinOp); ok && rem.Op == token.REM && st.Desc(y) == "0" && st.Desc(rem.Y) == T {
-					if sub, ok := Strip(rem.X).(*ssa.BinOp); ok && sub.Op == token.SUB && isN(sub.X) && st.Desc(sub.Y) == F {
+				if rem, ok := Strip(x).(*ssa.BinOp); ok && rem.Op == token.REM && st.Desc(y) == "0" && isFld(st.Desc(rem.Y), "thereafter") {
+					if sub, ok := Strip(rem.X).(*ssa.BinOp); ok && sub.Op == token.SUB && isN(sub.X) && isFld(st.Desc(sub.Y), "first") {
 						switch op {
 						case token.NEQ, token.GTR:
 							return tf("off-cycle", pol)
@@ -378,19 +393,86 @@ func c11Shared(c *Ctx) {
 	if !c.Anchor("R11.3", "zapcore.sampler.With/NewSamplerWithOptions", named != nil && w != nil && nw != nil) {
 		return
 	}
-	got := map[string]string{}
-	for f, bf := range BuiltFields(w, named) {
-		got[f] = bf.Desc
+	// by path exploration: what the object handed out holds, nested settings included (a setting may live in a struct
+	// the sampler holds by value; copying that struct whole carries it)
+	settings := func(fn *ssa.Function) (map[string]string, bool) {
+		var got map[string]string
+		agree := true
+		seqs, trunc := ConcPaths(fn, ConcCfg{
+			Event: func(in ssa.Instruction, st *ConcState) string {
+				r, ok := in.(*ssa.Return)
+				if !ok || len(r.Results) != 1 {
+					return ""
+				}
+				// every path hands out a sampler (returning the wrapped core itself would drop the hook and the budget)
+				rv := r.Results[0]
+				for k := 0; k < 12; k++ {
+					if mi, isMI := rv.(*ssa.MakeInterface); isMI {
+						rv = mi.X
+						continue
+					}
+					nx := st.Step(rv)
+					if nx == nil {
+						break
+					}
+					rv = nx
+				}
+				if n, _ := types.Unalias(deref(rv.Type())).(*types.Named); n == nil || n.Obj() != named.Obj() {
+					agree = false
+				}
+				f := st.FieldsOf(r.Results[0])
+				// paths that handed the object to code that is not explored (option appliers) know less about it;
+				// what they do know must agree
+				small, big := f, got
+				if len(f) > len(got) {
+					small, big = got, f
+				}
+				for k, v := range small {
+					if w, has := big[k]; has && w != v {
+						agree = false
+					}
+				}
+				got = big
+				return "ret"
+			},
+		})
+		return got, !trunc && len(seqs) > 0 && agree && got != nil
 	}
-	ok := got["counts"] == "s.counts" && got["tick"] == "s.tick" && got["first"] == "s.first" && got["thereafter"] == "s.thereafter" && got["hook"] == "s.hook" && got["Core"] == "With(s.Core, fields)"
+	// setting: the value of the (possibly nested) field named f
+	setting := func(got map[string]string, recv, f string) string {
+		for path, d := range got {
+			if path == f || strings.HasSuffix(path, "."+f) {
+				return d
+			}
+		}
+		for path, d := range got {
+			// an enclosing struct copied whole from the same place of the receiver
+			if recv != "" && d == recv+"."+path {
+				return d + "." + f
+			}
+			// the whole object copied from the receiver (dup := *s), the field not reassigned afterwards
+			if recv != "" && path == "*" && (d == "*"+recv || d == recv) {
+				return recv + "." + f
+			}
+		}
+		return ""
+	}
+	got, okW := settings(w)
+	rn := w.Params[0].Name()
+	ok := okW && setting(got, rn, "counts") == rn+".counts" && setting(got, rn, "tick") == rn+".tick" && strings.HasPrefix(setting(got, rn, "first"), rn+".") && strings.HasSuffix(setting(got, rn, "first"), ".first") &&
+		strings.HasPrefix(setting(got, rn, "thereafter"), rn+".") && strings.HasSuffix(setting(got, rn, "thereafter"), ".thereafter") && setting(got, rn, "hook") == rn+".hook" && setting(got, rn, "Core") == "With("+rn+".Core, "+w.Params[1].Name()+")"
 	c.Check(ok, "R11.3", w.String(), "shares-budget", w.Pos(), "a derived sampler points at the SAME counters and keeps tick/first/thereafter/hook (%v)", got)
-	got = map[string]string{}
-	for _, s := range FieldStoresOf(nw, named) {
-		got[s.Field] = Desc(s.Instr.Val)
-	}
-	ok = got["counts"] == "newCounters()" && strings.HasSuffix(got["hook"], "nopSamplingHook") && got["first"] == "conv[uint64](first)" && got["thereafter"] == "conv[uint64](thereafter)" && got["tick"] == "tick" && got["Core"] == "core"
+	got, okN := settings(nw)
+	fresh := func(d string) bool { return d == "newCounters()" || d == "&complit" || strings.HasPrefix(d, "new ") }
+	ok = okN && fresh(setting(got, "", "counts")) && strings.HasSuffix(setting(got, "", "hook"), "nopSamplingHook") && setting(got, "", "first") == "conv[uint64]("+nw.Params[2].Name()+")" && setting(got, "", "thereafter") == "conv[uint64]("+nw.Params[3].Name()+")" && setting(got, "", "tick") == nw.Params[1].Name() && setting(got, "", "Core") == nw.Params[0].Name()
 	c.Check(ok, "R11.3", nw.String(), "constructor", nw.Pos(), "the constructor allocates one counter table, defaults the hook to the no-op and stores tick/first/thereafter as given (%v)", got)
+	c11CtorOK, c11CtorGot = ok, fmt.Sprint(got)
 }
+
+var (
+	c11CtorOK  bool
+	c11CtorGot string
+)
 
 func c11Key(c *Ctx, minL int64) {
 	g := c.Method(CorePath, "counters", "get")
@@ -705,22 +787,8 @@ func c11Config(c *Ctx) {
 			c.Check(ok, "R11.9", FuncKey(fn), "config-arguments", cl.Pos(), "the sampler is built with tick = 1s, first = Sampling.Initial, thereafter = Sampling.Thereafter (found tick=%s first=%s thereafter=%s)", d1, d2, d3)
 		}
 	})
-	nw := c.Func(CorePath, "NewSamplerWithOptions")
-	named := c.Named(CorePath, "sampler")
-	if nw != nil && named != nil && len(nw.Params) >= 4 {
-		bf := BuiltFields(nw, named)
-		ok := bf["tick"].Val != nil && Strip(bf["tick"].Val) == ssa.Value(nw.Params[1]) && bf["first"].Val != nil && bf["thereafter"].Val != nil
-		if ok {
-			f, t := Strip(bf["first"].Val), Strip(bf["thereafter"].Val)
-			if cv, isCv := f.(*ssa.Convert); isCv {
-				f = cv.X
-			}
-			if cv, isCv := t.(*ssa.Convert); isCv {
-				t = cv.X
-			}
-			ok = f == ssa.Value(nw.Params[2]) && t == ssa.Value(nw.Params[3])
-		}
-		c.Check(ok, "R11.9", nw.String(), "parameters-to-fields", nw.Pos(), "the constructor stores tick, first, thereafter into the fields of the same name (first=%s thereafter=%s tick=%s)", bf["first"].Desc, bf["thereafter"].Desc, bf["tick"].Desc)
+	if nw := c.Func(CorePath, "NewSamplerWithOptions"); nw != nil {
+		c.Check(c11CtorOK, "R11.9", nw.String(), "parameters-to-fields", nw.Pos(), "the constructor stores tick, first, thereafter into the settings of the same name (%s)", c11CtorGot)
 	}
 	if n == 0 {
 		c.Bad("R11.9", "sampler constructors", "count", token.NoPos, "no call of NewSampler/NewSamplerWithOptions found")
